@@ -752,11 +752,20 @@ func (sc *Scope) call(x *SExpr) Val {
 		return Val{Typ: nil, Leaves: []*Term{Sto(a.T(), i.T(), v.T())}}
 	case "heapOf":
 		// heapOf(T.f): the current value of field f for all objects, as an array (argument for recursive spec functions)
-		if len(x.Args) != 1 || x.Args[0].Kind != SSel || x.Args[0].Args[0].Kind != SIdent {
+		if len(x.Args) != 1 || x.Args[0].Kind != SSel {
 			sfail("heapOf(T.f)")
 		}
 		a := x.Args[0]
-		t := sc.resolveType(&TypeExpr{Name: a.Args[0].Name})
+		var te *TypeExpr
+		switch q := a.Args[0]; {
+		case q.Kind == SIdent:
+			te = &TypeExpr{Name: q.Name}
+		case q.Kind == SSel && q.Args[0].Kind == SIdent:
+			te = &TypeExpr{Pkg: q.Args[0].Name, Name: q.Name} // pkg.T.f
+		default:
+			sfail("heapOf(T.f)")
+		}
+		t := sc.resolveType(te)
 		st, ok := t.Underlying().(*types.Struct)
 		if !ok {
 			sfail("heapOf: %s is not a struct", a.Args[0].Name)
